@@ -403,3 +403,51 @@ def check_try_from_wrapper(prog, res, rule, wrapper, inner, variant, arg):
     else:
         res.violate(rule, wrapper, "try-from-wrapper", "the wrapper's TryFrom is not `Ok(%s(%s::try_from(<whole argument>)?))`: %s" % (
             variant, inner.split(" as ")[0].split("::")[-1], str(tab)[:400]), prog.bodies[wrapper].where())
+
+
+def commut_sort(name, heads=("Mul::mul", "Add::add", "Mul", "Add")):
+    """a canonical name with the operands of commutative binary operators (IEEE `*` and `+`, also through the operator
+    traits of unit-carrying types) in sorted order: `Mul::mul(b,a)` -> `Mul::mul(a,b)`, recursively"""
+    def split_args(s):
+        out, depth, cur = [], 0, ""
+        for ch in s:
+            if ch in "([{<" :
+                depth += 1
+            elif ch in ")]}>":
+                depth -= 1
+            if ch == "," and depth == 0:
+                out.append(cur)
+                cur = ""
+            else:
+                cur += ch
+        out.append(cur)
+        return out
+
+    def rec(s):
+        i, out = 0, ""
+        while i < len(s):
+            hit = None
+            for h in heads:
+                if s.startswith(h + "(", i) and (i == 0 or not (s[i - 1].isalnum() or s[i - 1] in "_:")):
+                    hit = h
+                    break
+            if hit is None:
+                out += s[i]
+                i += 1
+                continue
+            j = i + len(hit) + 1
+            depth, k = 1, j
+            while k < len(s) and depth:
+                if s[k] == "(":
+                    depth += 1
+                elif s[k] == ")":
+                    depth -= 1
+                k += 1
+            inner = s[j:k - 1]
+            args = [rec(a) for a in split_args(inner)]
+            if len(args) == 2:
+                args = sorted(args)
+            out += hit + "(" + ",".join(args) + ")"
+            i = k
+        return out
+    return rec(name)
